@@ -14,7 +14,7 @@ import itertools
 
 import numpy as np
 
-from mc.lib import Acc, leaves_equal_bitwise, tree_hash
+from mc.lib import Acc, leaves_equal_bitwise, tree_hash, on_path
 
 SHAPES = {"v": [3], "m": [2, 3]}
 FAULTS = ["nan", "inf", "huge", "tiny", "ovf"]
@@ -134,6 +134,8 @@ def run_mcx(task, acc):
       nf = sum(1 for h in hist if h in FAULTS)
       for ev in EVENTS:
         if ev in FAULTS and nf >= task["maxf"]:
+          continue
+        if not on_path(task, hist + (ev,)):
           continue
         t = len(hist)
         h2 = hist + (ev,)
